@@ -36,6 +36,9 @@ type c15Params struct {
 	// Resumed: the measured connection resumes a session made by an earlier connection (no losses then: the named
 	// datagrams of the full handshake do not exist). Tight: ReadFrom is given a buffer of exactly the payload's size.
 	Resumed bool `json:"resumed,omitempty"`
+	// IdleMs: the side that answers does so only after this much (virtual) time, and the side that waits for the
+	// answer sets no read deadline of its own (no handshake datagram is lost in such a case)
+	IdleMs int `json:"idle_ms,omitempty"`
 	Tight   bool `json:"tight,omitempty"`
 	// ChainPad: extra certificates in the server's chain, so that the Certificate message exceeds one record
 	ChainPad int `json:"chain_pad,omitempty"`
@@ -140,6 +143,9 @@ func drawC15(src *vs.Src) *c15Params {
 	}
 	for i := 0; i < nl; i++ {
 		p.Loss = append(p.Loss, src.Intn(len(c15LossNames)))
+	}
+	if nl == 0 && src.Bool(1, 3) {
+		p.IdleMs = pickInt(src, []int{1500, 5000})
 	}
 	return p
 }
@@ -287,7 +293,9 @@ func (c15) Run(c *Case, src *vs.Src) *Result {
 		recv := func() {
 			buf := make([]byte, 20000)
 			for k := range theirs {
-				me.SetReadDeadline(vs.Now().Add(15 * time.Second))
+				if p.IdleMs == 0 || !first {
+					me.SetReadDeadline(vs.Now().Add(15 * time.Second))
+				}
 				if p.Tight {
 					buf = make([]byte, theirs[k]) // exactly as large as the payload that is due
 				}
@@ -319,6 +327,9 @@ func (c15) Run(c *Case, src *vs.Src) *Result {
 			recv()
 		} else {
 			recv()
+			if p.IdleMs > 0 {
+				vs.Sleep(time.Duration(p.IdleMs) * time.Millisecond)
+			}
 			send()
 		}
 	}
